@@ -19,13 +19,17 @@ FailedKinds(o) ==
    THEN (IF \A n \in Encoded : RecsOK(R(o, n), want, FALSE) THEN {} ELSE {"valid-stream-records"})
         \cup (IF RecsOK(R(o, "plain"), want, TRUE) THEN {} ELSE {"valid-stream-records-plain"})
         \cup (IF ScoreOK(R(o, "score"), want) THEN {} ELSE {"score-and-base-counts"})
+        \cup (IF (\E k \in 1..Len(want) : want[k].id = "s1") => R(o, "variants").err = "" THEN {} ELSE {"valid-stream-variants"})   \* (s1 is the --reference)
    ELSE IF ErrorClass(cls)
    THEN (IF \A n \in Encoded : R(o, n).err # "" THEN {} ELSE {"strict-" \o cls})
         \cup (IF cls = "BadSymbol" \/ R(o, "plain").err # "" THEN {} ELSE {"strict-plain-" \o cls})
         \cup (IF R(o, "variants").err # "" THEN {} ELSE {"strict-variants-" \o cls})
    ELSE {})
   \cup (IF Agree(R(o, "enc"), R(o, "score")) /\ Agree(R(o, "enc"), R(o, "list")) THEN {} ELSE {"readers-disagree"})
-FailedRaw(o) == IF Agree(R(o, "enc"), R(o, "score")) /\ Agree(R(o, "enc"), R(o, "list")) THEN {} ELSE {"readers-disagree"}
+FailedRaw(o) == (IF Agree(R(o, "enc"), R(o, "score")) /\ Agree(R(o, "enc"), R(o, "list")) THEN {} ELSE {"readers-disagree"})
+                \cup (IF Has(o.vec, "valid") /\ ~(/\ \A n \in Encoded \cup {"plain"} : R(o, n).err = "" /\ Len(R(o, n).recs) = o.vec.valid
+                                                 /\ Agree(R(o, "enc"), R(o, "plain")) /\ R(o, "variants").err = "")
+                      THEN {"valid-stream-records"} ELSE {})      \* (streams built as valid alignments: every reader, findReference included, reads them)
 Failed(o) ==
   IF o.obs.panic THEN {"panic"} ELSE IF o.obs.timeout THEN {"hang"} ELSE
   IF Has(o.vec, "lines") THEN FailedKinds(o) ELSE FailedRaw(o)
